@@ -48,7 +48,38 @@ class Injected(Exception):
         return (Injected, (self.tag, True))
 
 
+# ----------------------------------------------------------------------------- JSON codec for generated values
+def dec(v):
+    """Decode the JSON encoding used in specs for tuples, special floats and rows with non-string keys."""
+    if isinstance(v, dict):
+        if "__tuple__" in v:
+            return tuple(dec(x) for x in v["__tuple__"])
+        if "__float__" in v:
+            return float(v["__float__"])
+        if "__row__" in v:
+            return {dec(k): dec(x) for k, x in v["__row__"]}
+        return {k: dec(x) for k, x in v.items()}
+    if isinstance(v, list):
+        return [dec(x) for x in v]
+    return v
+
+
 # ----------------------------------------------------------------------------- learners
+class ParamLearner:
+    def __init__(self, tag, params):
+        self.tag, self._params = tag, dec(params)
+
+    @property
+    def params(self):
+        return dict(self._params, family="P", tag=self.tag)
+
+    def predict(self, context, actions):
+        return actions[0], 1.0
+
+    def learn(self, context, action, reward, probability):
+        pass
+
+
 class CounterLearner:
     """Stateful: what it predicts depends on everything it has learned so far."""
 
@@ -229,8 +260,8 @@ class RowsEvaluator:
     """Yields prepared rows (C07) - ignores the learner, reads the environment only to count."""
 
     def __init__(self, rows_by_env, params=None, tag="rows", fail_after=None):
-        self.rows_by_env = rows_by_env      # env tag -> list of rows
-        self._params = params or {}
+        self.rows_by_env = rows_by_env      # "env tag/learner tag" -> list of (encoded) rows
+        self._params = dec(params or {})
         self.tag = tag
         self.fail_after = fail_after
 
@@ -247,8 +278,27 @@ class RowsEvaluator:
             if self.fail_after is not None and i == self.fail_after:
                 raise Injected(f"evaluate:{self.tag}")
             _yield("val.row")
-            row = copy.deepcopy(r)
+            row = dec(copy.deepcopy(r))
             _record("val.row", self.tag, tag, lt, i)
+            yield row
+
+
+class TapEvaluator:
+    """Wraps a real evaluator and records (a deep copy of) every row it yields."""
+
+    def __init__(self, inner, tag="tap"):
+        self.inner, self.tag = inner, tag
+
+    @property
+    def params(self):
+        return dict(self.inner.params, tapped=type(self.inner).__name__)
+
+    def evaluate(self, environment, learner):
+        import copy
+        etag = environment.params.get("tag")
+        ltag = getattr(learner, "tag", None)
+        for row in self.inner.evaluate(environment, learner):
+            _record("tap.row", etag, ltag, copy.deepcopy(dict(row)))
             yield row
 
 
